@@ -657,7 +657,7 @@ def to_matched_score(
 
     # pair matched score and performance notes
     note_pairs = [
-        (part_by_id[a["score_id"]], ppart_by_id[a["performance_id"]])
+        (part_by_id[a["score_id"]][0], ppart_by_id[a["performance_id"]][0])
         for a in alignment
         if (a["label"] == "match" and a["score_id"] in part_by_id)
     ]
